@@ -263,9 +263,11 @@ def canary(results: list[dict], workers: int) -> dict:
         ev[a]["bits"], ev[b]["bits"] = ev[b]["bits"], ev[a]["bits"]
 
     bad = [mutate(base, drop_write), mutate(base, dup_write), mutate(base, alter), mutate(base, squeeze), mutate(base, swap),
-           mutate(mq, drop_write), mutate(mq, dup_write), mutate(mq, flood)]
+           mutate(mq, drop_write), mutate(mq, dup_write), mutate(mq, flood),
+           {"mode": "serial", "gap": 500, "maxtok": 0, "init": 0, "t0": 2000,      # an empty bucket, yet no wait
+            "ev": [E("call", 1, 2000, 12900000), E("write", 1, 2000, 12900000), E("end", 0, 9000)]}]
     expect = ["d:lost", "d:dup_or_unknown", "d:altered", ("a:overdraw", "b:spacing"), "d:order", "d:", "d:dup_or_unknown",
-              "c:"]
+              "c:", "a:overdraw"]
     res = tlc.validate_batch("TxTrace", bad, cfg="TxTrace.cfg", workers=workers, timeout=600)
     got = {i: f[1] for i, f in res["rejects"]}
     for i, exp in enumerate(expect):
